@@ -187,6 +187,10 @@ def run : St K V → List (Op K V) → St K V × List (Res K V)
     let t := run r.1 ops
     (t.1, r.2 :: t.2)
 
+/-- `MultiKeyDict(mapping)` : `for key, value in iteritems(dict(*args, **kwargs)): self[key] = value` -/
+def ofDict (items : List (K × V)) : St K V :=
+  (run St.empty (items.map fun e => Op.set [e.1] e.2)).1
+
 end MK
 
 /-! ## StrategyDict
